@@ -197,6 +197,9 @@ Open Scope N_scope.
 """
 
 
+MAX_SHARD_BYTES = 300000
+
+
 def _write_shard(path, corr_mod, terms, diag):
     with open(path, "w") as f:
         f.write(SHARD_HEADER % corr_mod)
@@ -211,7 +214,9 @@ def _write_shard(path, corr_mod, terms, diag):
 
 
 def _coqc_shard(path):
-    rc, out = run(["coqc", "-Q", ".", "PyD", path], cwd=COQ, timeout=900)
+    # large list literals need a deep stack in coqc's parser/type checker
+    rc, out = run(["bash", "-c", "ulimit -s unlimited 2>/dev/null || ulimit -s 1000000 2>/dev/null; "
+                   "exec coqc -Q . PyD \"$0\"", path], cwd=COQ, timeout=900)
     base = path[:-2]
     for ext in (".vo", ".glob", ".vok", ".vos", ".aux"):
         for p in (base + ext, os.path.join(os.path.dirname(base), "." + os.path.basename(base) + ext)):
@@ -229,7 +234,18 @@ def run_shards(pid, corr_mod, items, shard=None):
     shutil.rmtree(d, ignore_errors=True)
     os.makedirs(d)
     shard = shard or SHARD
-    shards = [items[i:i + shard] for i in range(0, len(items), shard)]
+    # shards are bounded by case count and by text size (a multi-megabyte literal
+    # overflows coqc's stack; see DESIGN.md section 10)
+    shards, cur, size = [], [], 0
+    for it in items:
+        n = len(it[1])
+        if cur and (len(cur) >= shard or size + n > MAX_SHARD_BYTES):
+            shards.append(cur)
+            cur, size = [], 0
+        cur.append(it)
+        size += n
+    if cur:
+        shards.append(cur)
     paths = []
     for k, sh in enumerate(shards):
         p = os.path.join(d, "shard_%s_%d.v" % (pid, k))
